@@ -55,7 +55,12 @@ void *realloc(void *p, size_t n)
 {
     if (p == NULL) return malloc(n);
     __CPROVER_assert(__CPROVER_POINTER_OFFSET(p) == 0, "realloc: pointer is the start of a block");
-    void *r = malloc(n);
+    /* a block that is a whole number of elements is allocated as an ARRAY OF ELEMENTS (cbmc types
+     * the object from the sizeof(T) * k pattern): element accesses are then one array index each
+     * instead of sizeof(T) byte indices, which is what keeps the SAT back end inside its memory */
+    void *r = (n % sizeof(VERIF_MEMHASH_REALLOC_ELEM_T) == 0)
+        ? __CPROVER_allocate(sizeof(VERIF_MEMHASH_REALLOC_ELEM_T) * (n / sizeof(VERIF_MEMHASH_REALLOC_ELEM_T)), 0)
+        : malloc(n);
     size_t m = __CPROVER_OBJECT_SIZE(p);
     if (n < m) m = n;
     if (vg_r < m / sizeof(VERIF_MEMHASH_REALLOC_ELEM_T))
@@ -64,6 +69,41 @@ void *realloc(void *p, size_t n)
         ((VERIF_MEMHASH_REALLOC_ELEM_T *) r)[vg_r2] = ((VERIF_MEMHASH_REALLOC_ELEM_T *) p)[vg_r2];
     free(p);
     return r;
+}
+#endif
+
+#if defined(VERIF_MEMHASH_MEMMOVE_MODEL) && defined(VERIF_MEMHASH_REALLOC_ELEM_T)
+/* OVER-APPROXIMATION of memmove, same style as the realloc model: afterwards the WHOLE destination
+ * object has arbitrary contents, except that the two elements with ghost indices vg_r and vg_r2 (of
+ * the unit's element type, counted from the start of the destination object) hold exactly what the
+ * real memmove leaves there: the moved value when the element lies inside [dst, dst+n), the old
+ * value when it lies outside (element-aligned moves; otherwise arbitrary).  The real memmove changes
+ * nothing outside [dst, dst+n), so its behaviour is one of the model's; vg_r, vg_r2 are arbitrary.
+ * (cbmc's own memmove with a symbolic length on the 48-byte record array: z3 > 250 s, SAT out of
+ * memory.)  Bounds of both ranges are checked. */
+void *memmove(void *dst, const void *src, size_t n)
+{
+    typedef VERIF_MEMHASH_REALLOC_ELEM_T vg_elem_t;
+    __CPROVER_assert(n == 0 || (__CPROVER_r_ok(src, n) && __CPROVER_w_ok(dst, n)), "memmove: source readable, destination writable for n bytes");
+    if (n == 0) return dst;
+    size_t doff = __CPROVER_POINTER_OFFSET(dst), soff = __CPROVER_POINTER_OFFSET(src), osz = __CPROVER_OBJECT_SIZE(dst);
+    /* element-aligned moves are modelled exactly at the ghost elements; anything else leaves them
+     * arbitrary.  All accesses are written as ELEMENT-indexed accesses relative to dst / src (no
+     * byte arithmetic), so that cbmc keeps them as array-element accesses. */
+    _Bool aligned = doff % sizeof(vg_elem_t) == 0 && soff % sizeof(vg_elem_t) == 0 && n % sizeof(vg_elem_t) == 0;
+    __CPROVER_ssize_t d0 = (__CPROVER_ssize_t) (doff / sizeof(vg_elem_t)), ne = (__CPROVER_ssize_t) (n / sizeof(vg_elem_t)),
+                      oe = (__CPROVER_ssize_t) (osz / sizeof(vg_elem_t));
+    __CPROVER_ssize_t r1 = (__CPROVER_ssize_t) vg_r - d0, r2 = (__CPROVER_ssize_t) vg_r2 - d0;   /* ghost elements relative to dst */
+    vg_elem_t *de = (vg_elem_t *) dst;
+    const vg_elem_t *se = (const vg_elem_t *) src;
+    vg_elem_t v1, v2;                   /* arbitrary */
+    _Bool k1 = 0, k2 = 0;
+    if (aligned && vg_r < (size_t) oe) { v1 = (r1 >= 0 && r1 < ne) ? se[r1] : de[r1]; k1 = 1; }
+    if (aligned && vg_r2 < (size_t) oe) { v2 = (r2 >= 0 && r2 < ne) ? se[r2] : de[r2]; k2 = 1; }
+    __CPROVER_havoc_object(dst);
+    if (k1) de[r1] = v1;
+    if (k2) de[r2] = v2;
+    return dst;
 }
 #endif
 
